@@ -84,3 +84,21 @@ Proof.
   exists 3%nat, 99, [[v 1; None; v 3]; [v 4; v 5; None]].
   split; [repeat constructor|]. vm_compute. discriminate.
 Qed.
+
+(* F06f (repaired by handoff/C06-fix2-1.diff): the counts were those of the
+   first auxiliary coordinate spanning the field's axes, so a field value
+   beyond that coordinate's last value was dropped ([[1, --, 99]] with the
+   coordinate [[100, --, --]] came back as [[1, --, --]]).  With the counts of
+   the repaired code the same field survives. *)
+Theorem C06_old_compress_beyond_count_refuted :
+  exists w (aux rows : list (list (option Z))),
+    Forall (fun r => length r = w) aux /\ Forall (fun r => length r = w) rows /\
+    length aux = length rows /\
+    (let counts := derive_counts_old rows (Some aux) in
+     contiguous_decode None (length rows) w counts (pack counts rows) <> Ok rows) /\
+    (let counts := derive_counts rows [aux] in
+     contiguous_decode None (length rows) w counts (pack counts rows) = Ok rows).
+Proof.
+  exists 3%nat, [[v 100; None; None]], [[v 1; None; v 99]].
+  repeat split; try (repeat constructor). vm_compute. discriminate.
+Qed.
